@@ -784,6 +784,19 @@ func c09CosiRun(c *kc.Ctx, e *cosiEnv, rng *kc.Rng, b *blsBatch, runs int) {
 			panic(err)
 		}
 		b.expect(e.name+":cosi-aggresp", fmt.Sprintf("c09 cosi aggresp %s %s", qh, blsHexList(rs)), kc.HexN(blsBig(rAgg)), true, nil)
+		// aggregation reads its inputs: the responses (and commitments) are the signers' values and are used again
+		// (a retry, a late response, a subtree aggregated first)
+		rAgg2, err2 := cosi.AggregateResponses(su, rsc)
+		c.Eval(1)
+		same := err2 == nil && rAgg2.Equal(rAgg)
+		for k := range rsc {
+			if blsBig(rsc[k]).Cmp(rs[k]) != 0 {
+				same = false
+			}
+		}
+		if !same {
+			blsViolation(c, "cosi.AggregateResponses/inputs-changed", e.name+": aggregating the same responses a second time gives another result, or the responses were changed by the first aggregation", map[string]string{"group": e.name, "responses": blsHexList(rs)})
+		}
 		sig, err := cosi.Sign(su, aggV, rAgg, mask)
 		if err != nil {
 			panic(err)
